@@ -30,7 +30,7 @@ COMPONENTS = {
     'stub': ['SimLoop', 'SimSocket', 'scripted SMTP/LMTP server', 'scripted '
              'HTTP responder'],
 }
-BUDGET = {'quick': 15000, 'thorough': 300000}
+BUDGET = {'quick': 25000, 'thorough': 300000}
 PROBES = ['pool-size-1', 'pool-size-2', 'pool-size-3', 'pool-unbounded',
           'idle-reuse', 'request-waited-for-slot', 'connect-refused',
           'dropped-mid-transaction', 'rejected-transaction',
